@@ -4,6 +4,7 @@ import (
 	"regexp"
 	"runtime"
 	"strings"
+	"sync"
 	"time"
 )
 
@@ -18,7 +19,10 @@ type gInfo struct {
 	Text  string
 }
 
-func libraryGoroutines() []gInfo {
+func libraryGoroutines() []gInfo { return goroutinesWith("github.com/Trisia/randomness") }
+
+// goroutinesWith returns the goroutines whose stack mentions any of the given strings (the snapshotting goroutine excepted).
+func goroutinesWith(needles ...string) []gInfo {
 	buf := make([]byte, 1<<20)
 	for {
 		n := runtime.Stack(buf, true)
@@ -34,10 +38,14 @@ func libraryGoroutines() []gInfo {
 		if m == nil {
 			continue
 		}
-		if !strings.Contains(blk, "github.com/Trisia/randomness") {
+		hit := false
+		for _, nd := range needles {
+			hit = hit || strings.Contains(blk, nd)
+		}
+		if !hit {
 			continue
 		}
-		if strings.Contains(blk, "props.libraryGoroutines") {
+		if strings.Contains(blk, "props.goroutinesWith") {
 			continue // the snapshotting goroutine itself
 		}
 		out = append(out, gInfo{State: m[2], Text: blk})
@@ -160,6 +168,51 @@ func callWatchedProbe(fn func() (bool, error), wallLimit time.Duration, spinning
 			if time.Since(start) > wallLimit {
 				res.Slow = true
 				return res
+			}
+		}
+	}
+}
+
+// waitOrDeadlock waits for wg; it reports a deadlock when, for 5 s without interruption (snapshots every 200 ms), there are
+// goroutines inside the library and every one of them is parked on a channel / mutex / semaphore: nobody is left who could wake them
+// (the harness goroutines only wait for them). A slow but running call is never reported.
+func waitOrDeadlock(wg *sync.WaitGroup) (bool, string) {
+	done := make(chan struct{})
+	go func() { wg.Wait(); close(done) }()
+	tick := time.NewTicker(200 * time.Millisecond)
+	defer tick.Stop()
+	quiet := 0
+	for {
+		select {
+		case <-done:
+			return false, ""
+		case <-tick.C:
+			gs := goroutinesWith("github.com/Trisia/randomness", "verif/harness/props.runTask")
+			all, inCall := true, 0
+			for _, g := range gs {
+				if !parkedStates[g.State] {
+					all = false
+					break
+				}
+				if strings.Contains(g.Text, "verif/harness/props.runTask") {
+					inCall++
+				}
+			}
+			if !all || inCall == 0 { // a parked goroutine below runTask is blocked inside the library call it made
+				quiet = 0
+				continue
+			}
+			quiet++
+			if quiet >= 25 {
+				var sb strings.Builder
+				for i, g := range gs {
+					if i >= 3 {
+						break
+					}
+					sb.WriteString(g.Text)
+					sb.WriteString("\n\n")
+				}
+				return true, sb.String()
 			}
 		}
 	}
